@@ -7,7 +7,9 @@ import (
 	"encoding/json"
 	"fmt"
 	"math/rand"
+	"os"
 	"reflect"
+	"runtime"
 	"strings"
 	"time"
 
@@ -47,6 +49,7 @@ type nbtDecEv struct {
 	Panicked bool     `json:"panicked"`
 	Class    string   `json:"class"`
 	Msg      string   `json:"-"`
+	Nodes    int      `json:"nodes"` // number of values in the decoded result (-1: the target does not expose them)
 	// decgo
 	Ty        *goType `json:"ty,omitempty"`
 	Val       any     `json:"val,omitempty"`
@@ -72,8 +75,42 @@ type arrayFields struct {
 }
 
 // nbtDecode runs one real decode entry point on input (document ++ whatever follows).
+// countAny / countDynbt: the number of values (scalars, arrays, strings, list elements, compound entries, the
+// containers themselves) in a decoded result. Every NBT value occupies at least one byte of the document.
+func countAny(v any) int {
+	switch x := v.(type) {
+	case []any:
+		n := 1
+		for _, e := range x {
+			n += countAny(e)
+		}
+		return n
+	case map[string]any:
+		n := 1
+		for _, e := range x {
+			n += countAny(e)
+		}
+		return n
+	}
+	return 1
+}
+
+func countDynbt(v *dynbt.Value) int {
+	if v == nil {
+		return 1
+	}
+	n := 1
+	for _, e := range v.List() {
+		n += countDynbt(e)
+	}
+	if c := v.Compound(); c != nil {
+		c.Visit(func(_ string, e *dynbt.Value) { n += countDynbt(e) })
+	}
+	return n
+}
+
 func nbtDecode(fmtName string, input []byte, target string, class string) (ev nbtDecEv) {
-	ev = nbtDecEv{K: "dec", Fmt: fmtName, Input: ints(input), Target: target, Class: class, Tree: &nbtNode{}, Name: []int{}, Named: true}
+	ev = nbtDecEv{Nodes: -1, K: "dec", Fmt: fmtName, Input: ints(input), Target: target, Class: class, Tree: &nbtNode{}, Name: []int{}, Named: true}
 	br := bytes.NewReader(input)
 	var pr *plainReader
 	mk := func() *nbt.Decoder {
@@ -98,12 +135,14 @@ func nbtDecode(fmtName string, input []byte, target string, class string) (ev nb
 				var v any
 				name, err = mk().Decode(&v)
 				if err == nil {
+					ev.Nodes = countAny(v)
 					ev.Tree, ev.Exact = projectAny(v), true
 				}
 			case "map":
 				var v map[string]any
 				name, err = mk().Decode(&v)
 				if err == nil {
+					ev.Nodes = countAny(v)
 					ev.Tree, ev.Exact = projectAny(v), true
 				}
 			case "skip": // every entry is unknown to the struct: exercised through rawRead
@@ -130,6 +169,7 @@ func nbtDecode(fmtName string, input []byte, target string, class string) (ev nb
 				name, err = mk().Decode(&v)
 				ev.K = "carrier"
 				if err == nil {
+					ev.Nodes = countDynbt(&v)
 					var out bytes.Buffer
 					e := nbt.NewEncoder(&out)
 					e.NetworkFormat(fmtName == "network")
@@ -305,7 +345,7 @@ func nbtPrefill(v reflect.Value, mode string, depth int) {
 }
 
 func nbtDecodeShapedPrior(fmtName string, input []byte, t *goType, class string, dropFirst bool, prior string) nbtDecEv {
-	ev := nbtDecEv{Prior: prior, DropFirst: dropFirst, K: "decgo", Fmt: fmtName, Input: ints(input), Target: "shaped", Class: class, Tree: &nbtNode{}, Name: []int{}, Ty: t, Val: []any{}, Out: []int{}}
+	ev := nbtDecEv{Nodes: -1, Prior: prior, DropFirst: dropFirst, K: "decgo", Fmt: fmtName, Input: ints(input), Target: "shaped", Class: class, Tree: &nbtNode{}, Name: []int{}, Ty: t, Val: []any{}, Out: []int{}}
 	br := bytes.NewReader(input)
 	ev.Panicked, ev.Msg = catch(func() {
 		rv := reflect.New(t.reflectType())
@@ -579,6 +619,13 @@ func nbtJudge(env *vk.Env, tr *vk.Trace, label string) {
 			env.Infra("%s: rejection of line %d did not reproduce: %s", label, vl.L, vkTrunc(string(lines[vl.L-1]), 300))
 			continue
 		}
+		if vl.Inv == "NoAmplify" { // one class whatever mutation produced the input
+			var h struct {
+				Target string `json:"target"`
+			}
+			json.Unmarshal(lines[vl.L-1], &h)
+			sig = "nbt decode into " + h.Target + " reports success with more values than bytes consumed (elements that occupy no input, e.g. a non-empty list of element type End)"
+		}
 		env.Report(sig, vl.Inv+" violated by recorded call: "+detail, map[string]any{"kind": "line", "line": json.RawMessage(lines[vl.L-1])})
 	}
 }
@@ -589,6 +636,11 @@ func nbtFlush(env *vk.Env, tr **vk.Trace, label string, part *int, force bool) {
 		return
 	}
 	*part++
+	if os.Getenv("VERIF_MEMLOG") != "" {
+		var ms runtime.MemStats
+		runtime.ReadMemStats(&ms)
+		fmt.Fprintf(os.Stderr, "MEMLOG %s part %d: heap=%d MB sys=%d MB events=%d bytes=%d MB\n", label, *part, ms.HeapAlloc>>20, ms.Sys>>20, (*tr).N, len((*tr).Bytes())>>20)
+	}
 	nbtJudge(env, *tr, fmt.Sprintf("%s [part %d]", label, *part))
 	*tr = &vk.Trace{}
 }
@@ -848,7 +900,7 @@ func nbtCarrierNested(v nbtVec, where int) nbtDecEv {
 	default:
 		wrapped = &nbtNode{T: 9, Et: inner.T, Lst: []*nbtNode{inner, inner}}
 	}
-	ev := nbtDecEv{K: "carrier", Fmt: "file", Target: []string{"raw-in-struct", "raw-in-map", "raw-in-list"}[where], Class: "universe", Tree: inner, Name: []int{}, Out: []int{}}
+	ev := nbtDecEv{Nodes: -1, K: "carrier", Fmt: "file", Target: []string{"raw-in-struct", "raw-in-map", "raw-in-list"}[where], Class: "universe", Tree: inner, Name: []int{}, Out: []int{}}
 	doc := nbtDocBytes("file", []byte("w"), wrapped)
 	ev.Input = ints(doc)
 	ev.Panicked, ev.Msg = catch(func() {
@@ -948,7 +1000,11 @@ func nbtMutate(rng *rand.Rand, doc []byte, off *nbtOffsets) (out []byte, class s
 // is silent about memory, so such inputs are not generated: nbtTooBig walks the input the way the format
 // prescribes (a tolerant scanner, used only as a generator filter) and reports whether any declared
 // 32-bit length it meets is >= 2^24.
-func nbtTooBig(fmtName string, in []byte) bool {
+func nbtTooBig(fmtName string, in []byte) bool { return nbtTooBigAt(fmtName, in, 1<<24) }
+
+// nbtTooBigAt: does the input declare an array / list length of at least limit (and below 2^31)? Destinations whose
+// elements are large (shaped structs) allocate length x element size before they read anything.
+func nbtTooBigAt(fmtName string, in []byte, limit uint32) bool {
 	big := false
 	p := 0
 	var payload func(t byte, depth int) bool
@@ -958,7 +1014,7 @@ func nbtTooBig(fmtName string, in []byte) bool {
 		}
 		v := uint32(in[p])<<24 | uint32(in[p+1])<<16 | uint32(in[p+2])<<8 | uint32(in[p+3])
 		p += 4
-		if v >= 1<<24 && v < 1<<31 {
+		if v >= limit && v < 1<<31 {
 			big = true
 		}
 		return v, v < 1<<24
@@ -1055,7 +1111,17 @@ func nbtTooBig(fmtName string, in []byte) bool {
 }
 
 // c03Event: C03 is about totality, not byte-exact re-emission: carriers are judged as plain decodes here
+var memlogLast uint64
+
 func c03Event(ev nbtDecEv) nbtDecEv {
+	if os.Getenv("VERIF_MEMLOG") != "" {
+		var ms runtime.MemStats
+		runtime.ReadMemStats(&ms)
+		if ms.HeapAlloc>>20 > memlogLast+1024 {
+			fmt.Fprintf(os.Stderr, "MEMLOG heap=%d MB after %s target=%s class=%s input=% x\n", ms.HeapAlloc>>20, ev.K, ev.Target, ev.Class, capBytes(bytesOf(ev.Input), 80))
+		}
+		memlogLast = ms.HeapAlloc >> 20
+	}
 	if ev.K == "carrier" {
 		ev.K, ev.Exact = "dec", false
 	}
@@ -1125,7 +1191,7 @@ func runC03(env *vk.Env) {
 				tg = "skip"
 			}
 			tr.Add(c03Event(nbtDecode(fmtName, in, tg, class)))
-			if sh := shapeOf(tree, false); sh != nil && j == 0 {
+			if sh := shapeOf(tree, false); sh != nil && j == 0 && !nbtTooBigAt(fmtName, in, 1<<14) {
 				if pan, _ := catch(func() { sh.reflectType() }); !pan {
 					ev := nbtDecodeShaped(fmtName, in, sh, class, false)
 					ev.K = "dec" // typed target on hostile input: only totality and prefix rules apply
@@ -1173,6 +1239,28 @@ func runC03(env *vk.Env) {
 		}
 	}
 	nbtJudge(env, tr, "B declared lengths around fixed-size Go array destinations")
+	// lists whose element type is End but whose count is not zero: n "values" in no bytes at all
+	tr = &vk.Trace{}
+	for _, cnt := range []int{1, 2, 300, 70000} {
+		c := []byte{byte(cnt >> 24), byte(cnt >> 16), byte(cnt >> 8), byte(cnt)}
+		endList := append([]byte{0}, c...) // element type End, count
+		docs := map[string][]byte{
+			"root":      append([]byte{9}, endList...),
+			"in-list":   append(append([]byte{9, 9, 0, 0, 0, 2}, endList...), endList...),
+			"in-field":  append(append([]byte{10, 9, 0, 1, 'l'}, endList...), 0),
+			"then-more": append(append([]byte{10, 9, 0, 1, 'l'}, endList...), 1, 0, 1, 'b', 7, 0),
+		}
+		for where, doc := range docs {
+			for _, tg := range nbtTargets {
+				if tg == "map" && doc[0] != 10 {
+					continue
+				}
+				tr.Add(c03Event(nbtDecode("network", doc, tg, "end-typed-list/"+where)))
+			}
+			env.Distinct(fmt.Sprintf("hostile/end-typed-list/%s/%d", where, cnt))
+		}
+	}
+	nbtJudge(env, tr, "B non-empty lists of element type End")
 	// huge declared lengths (2^24 .. 2^31-1) where the decoder does not allocate by the declared length: skipped
 	// fields, RawMessage capture, RawMessage.String, StringifiedMessage. 32-bit size arithmetic overflows only here.
 	tr = &vk.Trace{}
